@@ -11,18 +11,27 @@ THEOREMS = [
 ]
 COMPONENTS = ['hypotheses of the assembly theorems (well-formedness of asset problems) evaluated on every captured real asset problem', 'assemble (mapping, nodal rows, nodal list) on captured real asset problems', 'readout.dispatch vs io.extract_output']
 RULE = ('random portfolios (1-3 nodes, 2-8 assets of 12 kinds, windows, coarse frequency, periodicity, wacc, time zones); mono and split; '
+        'plus (one more case per 8) portfolios of assets pinned by min_cap == max_cap (fixed-rate / fixed-profile contracts, multi-commodity contracts, '
+        'fixed-flow transports) whose pinned values balance or - by a seed-drawn choice per node - do not, alone or next to a flexible market '
+        'contract active in part of the horizon, optimised in one go and split into intervals some of which have no free variable; a portfolio '
+        'whose pinned values do not balance must not return a solution (counted, nothing to check), every solution that IS returned is checked; '
+        'split solutions are re-optimised with whole intervals pinned through fix_time_window (rolling optimisation) and checked again; '
         'non-trivial = solved scenario with at least one (node, step) where >= 2 assets have non-zero dispatch; distinct by scenario hash')
 ASSUMPTIONS = ['solver returns a point feasible within 1e-6 (checked by the C03 oracle); oracle tolerance 2e-6 * dispatch scale']
-EXPLANATION = 'theorems about the model of Portfolio.setup_optim_problem / io.extract_output; correspondence on captured asset problems; oracle on the real dispatch output'
+EXPLANATION = ('theorems about the model of Portfolio.setup_optim_problem / io.extract_output; correspondence on captured asset problems; oracle on the real dispatch output '
+               'of every solution the code returns (one go, relaxed, re-set-up, split, split re-optimised with pinned intervals), also for problems without any free variable')
 
 
 def scenarios(seed, tier):
     n = 600 if tier == 'quick' else 3600
     rnd = random.Random(seed * 7919 + 1)
+    rnd3 = random.Random(seed * 7919 + 1 + 700001)      # own stream for the additions (the portfolios drawn from rnd stay what they were)
     for i in range(n):
         r1 = random.Random(rnd.getrandbits(48))
         s = gen.gen_portfolio(r1, tmax=12 if tier == 'quick' else 20)
         s['mode'] = 'split' if i % 4 == 3 else 'mono'
+        if s['mode'] == 'split':
+            s['refix_seed'] = rnd3.getrandbits(30)      # the split solution is re-optimised with whole intervals pinned
         if i % 6 == 2 and len(s['nodes']) >= 2:
             # node names that are easily confused once combined with a step number: one name is another plus digits
             from .. import scen as _scen
@@ -47,6 +56,15 @@ def scenarios(seed, tier):
     for i in range(n // 10):
         r1 = random.Random(rnd.getrandbits(48))
         yield 'slp%d' % i, {'_stream': 'slp', 'case': S.gen_straddle_case(r1) if i % 2 else S.gen_case(r1)}
+    # problems (and single intervals of split problems) in which every variable is pinned by its bounds, balanced or not
+    # (own random stream: the cases above stay what they were)
+    from ..comp import fixedpf as F
+    rnd2 = random.Random(seed * 7919 + 1 + 500009)
+    for i in range(n // 8):
+        s = F.gen_case(random.Random(rnd2.getrandbits(48)), tmax=12 if tier == 'quick' else 20)
+        s['mode'] = 'split'
+        s['refix_seed'] = rnd2.getrandbits(30)
+        yield 'fixed%d' % i, s
 
 
 def run_case(scn, drv):
@@ -63,6 +81,8 @@ def run_case(scn, drv):
     feats.append('nodes:%d' % len(scn['nodes']))
     if scn['grid'].get('tz'):
         feats.append('tz')
+    fixed_stream = scn.get('stream') == 'fixedpf'
+    rs = None
     try:
         rec = pf.setup_mono(scn)
     except Exception as e:
@@ -130,13 +150,33 @@ def run_case(scn, drv):
             k = max(1, T // 3)
             tot = step * k
             interval = ('%dmin' % (tot // 60)) if tot % 3600 else ('%dh' % (tot // 3600))
-            rs = pf.setup_split(scn, interval)
+            rs = pf.setup_split(scn, scn.get('split_interval') or interval)
             pf.solve_rec(rs)
             feats.append('split')
             if not isinstance(rs['res'], str):
                 v, nt = pf.orc_nodal_balance(rs, tag='split')
                 r['violations'] += v
                 r['evaluated'] += 1
+                r['nontrivial'] = r['nontrivial'] or nt > 0
+            else:
+                feats.append('split-no-solution')       # nothing returned, nothing to check
         except Exception as e:
             feats.append('split-error:' + impl.err_class(e))
+        # rolling re-optimisation: whole intervals pinned to the split solution through fix_time_window, other prices changed;
+        # what is returned is a solution like any other
+        if rs is not None and not isinstance(rs.get('res'), str) and rs.get('out') is not None and scn.get('refix_seed') is not None:
+            try:
+                from ..comp import fixedpf as F
+                rf = F.refix_split(rs, scn['refix_seed'])
+                if rf is not None:
+                    feats.extend(F.refix_features(rf))
+                    r['evaluated'] += 1
+                    if not isinstance(rf['res'], str):
+                        v, nt = pf.orc_nodal_balance(rf, tag='split-refixed')
+                        r['violations'] += v
+            except Exception as e:
+                feats.append('refix-error:' + impl.err_class(e))
+    if fixed_stream:
+        from ..comp import fixedpf as F
+        feats.extend(F.features(scn, rec, rs))
     return r
